@@ -83,9 +83,9 @@ def judge(ctx, res, tpath, what):
 def run(ctx):
     binary = ctx.go_build("internal/zzverif/c28")
     # exhaustive check of the reference + the graph the behaviours are taken from (same run)
-    g = ctx.dump_graph("MetadataMC", ctx.pick("MetadataMC.cfg", "MetadataMC4.cfg"), workers=8, timeout=1500)
-    ctx.mc("MetadataMC", "MetadataMC5.cfg", workers=8)
-    ctx.neg("MetadataMC", "MetadataNeg.cfg", expect="I_ValueAgrees", workers=2)
+    g = ctx.dump_graph("MetadataMC", ctx.pick("MetadataMC.cfg", "MetadataMC4.cfg"), timeout=1500)
+    ctx.mc("MetadataMC", "MetadataMC5.cfg")
+    ctx.neg("MetadataMC", "MetadataNeg.cfg", expect="I_ValueAgrees")
     behs = ctx.edge_cover(g, step_of, limit=ctx.pick(4000, 150000), mode=ctx.pick("edges", "paths"))
     bpath = os.path.join(ctx.run, "beh.ndjson")
     tpath = os.path.join(ctx.run, "trace-replay.ndjson")
